@@ -49,6 +49,10 @@ ElementAllowed(cfg, name) ==
   IF cfg.allow_el.kind = "unset" /\ ~UsesMode(cfg) THEN TRUE
   ELSE \/ (cfg.allow_el.kind # "unset" /\ name \in cfg.allow_el.s)
        \/ (cfg.allow_el.kind # "override" /\ UsesMode(cfg) /\ name \in StrictElements)
+\* an element of foreign content (SVG, MathML: `foreign`) is not the HTML element of the same local name: under an element
+\* allow list it is never allowed (it would be written back as that HTML element)
+ElementAllowedN(cfg, n) ==
+  ((cfg.allow_el.kind # "unset" \/ UsesMode(cfg)) => ~n.foreign) /\ ElementAllowed(cfg, n.name)
 AttrWhitelisted(cfg) == cfg.allow_at.kind # "unset" \/ UsesMode(cfg)
 AttrAllowed(cfg, el, at) ==
   \/ (cfg.allow_at.kind # "unset" /\ at \in Get(cfg.allow_at.m, el, {}))
@@ -102,7 +106,7 @@ Action(n, depth, cfg) ==
   ELSE IF cfg.noreply /\ n.name = "mx-reply" THEN "remove"
   ELSE IF MaxDepth(cfg) >= 0 /\ depth >= MaxDepth(cfg) THEN "remove"
   ELSE IF n.name \in cfg.ignore_el THEN "ignore"
-  ELSE IF ~ElementAllowed(cfg, n.name) THEN "ignore"
+  ELSE IF ~ElementAllowedN(cfg, n) THEN "ignore"
   ELSE IF \E a \in n.attrs : HasScheme(a.v, Get(Get(cfg.deny_sc, n.name, <<>>), a.n, {})) THEN "ignore"
   ELSE IF SchemesChecked(cfg) /\ \E a \in n.attrs : HasSchemeList(cfg, n.name, a.n) /\ ~HasScheme(a.v, SchemeList(cfg, n.name, a.n)) THEN "ignore"
   ELSE "keep"
@@ -137,7 +141,7 @@ RECURSIVE SafeNode(_, _, _)
 SafeNode(n, depth, cfg) ==
   IF n.k = "text" THEN TRUE
   ELSE IF n.k = "other" THEN FALSE
-  ELSE /\ ElementAllowed(cfg, n.name) /\ n.name \notin cfg.remove_el /\ n.name \notin cfg.ignore_el
+  ELSE /\ ElementAllowedN(cfg, n) /\ n.name \notin cfg.remove_el /\ n.name \notin cfg.ignore_el
        /\ ~(cfg.noreply /\ n.name = "mx-reply")
        /\ (MaxDepth(cfg) >= 0 => depth < MaxDepth(cfg))
        /\ \A a \in n.attrs :
